@@ -17,7 +17,7 @@ PROPERTY = "C16"
 LEVEL = "exploration"
 BUDGET_S = {"quick": 50, "thorough": 700}
 FLOOR = {"quick": 1500, "thorough": 15000}
-MUST_REACH = ("copies_judged", "rebuilds_judged", "alias_walks", "mutations_judged", "identity_checks_judged")
+MUST_REACH = ("copies_judged", "rebuilds_judged", "alias_walks", "mutations_judged", "identity_checks_judged", "config_built_objects")
 RULE = ("objects of all exported classes over the C06 domain (ports, protocols, options, wildcards, addresses incl. groups with "
         "members, address-group members, address groups, remarks, extended/standard ACEs, ACE groups, ACLs flat and grouped, "
         "with notes), each taken through copy() and Class(**data()); 1..4 mutations from a per-class menu (line, platform, "
@@ -65,6 +65,12 @@ def mutable_ids(obj) -> dict:
 def _build(case):
     import cisco_acl  # pylint: disable=import-outside-toplevel
 
+    if case.get("via_config"):
+        # the object comes out of the config-level function (members of referenced groups attached by the library)
+        objs = cisco_acl.acls(case["text"], **dict(case["kwargs"]))
+        if len(objs) != 1:
+            raise RuntimeError(f"config generator expected one ACL, got {len(objs)}")
+        return objs[0]
     obj = getattr(cisco_acl, case["cls"])(case["text"], **dict(case["kwargs"]))
     if case.get("items"):
         obj.items = list(case["items"])
@@ -349,6 +355,8 @@ def execute(ctx, case: dict) -> None:
         ctx.count("copies_judged")
         _compare(ctx, case, "copy()", src, cpy)
         rebuilt = type(src)(**src.data())
+        if case.get("via_config"):
+            ctx.count("config_built_objects")
         ctx.count("rebuilds_judged")
         _compare(ctx, case, "Class(**data())", src, rebuilt)
     except Exception as ex:  # pylint: disable=broad-except
@@ -395,7 +403,46 @@ def execute(ctx, case: dict) -> None:
             identity_check(ctx, case, obj, kind, rng)
 
 
+def gen_config_case(rng):
+    """An ACL built by cisco_acl.acls() from a configuration with address groups."""
+    from vcheck.checks.C13 import rand_cube, spell  # pylint: disable=import-outside-toplevel
+    from vcheck.gen import grammar  # pylint: disable=import-outside-toplevel
+    from vcheck.oracle import bits  # pylint: disable=import-outside-toplevel
+
+    platform = rng.choice(["ios", "nxos"])
+    word = "object-group" if platform == "ios" else "addrgroup"
+    lines = []
+    for name in ("G1", "G2"):
+        lines.append(f"object-group network {name}" if platform == "ios" else f"object-group ip address {name}")
+        for _ in range(rng.randint(1, 3)):
+            cube = rand_cube(rng, 0)
+            if cube[1] == bits.ALL:
+                cube = bits.cube(cube[0], 255)
+            text = spell(rng, cube, platform, "AddressAg")
+            lines.append(" " + (text if platform == "nxos" or "/" not in text else "host 10.0.0.9"))
+    lines.append(grammar.acl_header(platform, "CFG"))
+    heading = rng.choice(["", "= "])
+    for idx in range(rng.randint(1, 5)):
+        roll = rng.random()
+        if roll < 0.25:
+            lines.append(" remark " + (heading + f"H{idx}" if heading else f"note {idx}"))
+        elif roll < 0.7:
+            pair = rng.choice([(f"{word} G1", "any"), ("any", f"{word} G2"), (f"{word} G1", f"{word} G2")])
+            lines.append(f" permit {rng.choice(['ip', 'tcp'])} {pair[0]} {pair[1]}")
+        else:
+            lines.append(" " + grammar.gen_ace(rng, platform, "", allow_group=False, foreign=False, ws=False, allow_multi=False)["text"])
+    lines += ["interface Ethernet1/1", " ip access-group CFG in"]
+    kwargs = {"platform": platform, "version": rng.choice(["", "15.2(02)SY", "16.09.06"]), "port_nr": rng.random() < 0.3}
+    if heading:
+        kwargs["group_by"] = heading
+    return {"cls": "Acl", "via_config": True, "text": "\n".join(lines) + "\n", "kwargs": kwargs,
+            "rseed": rng.randrange(1 << 30), "mutations": [rng.choice(MUTATIONS["Acl"]) for _ in range(rng.randint(1, 3))],
+            "transforms": [rng.choice(TRANSFORMS) for _ in range(rng.randint(1, 3))]}
+
+
 def gen_case(rng):
+    if rng.random() < 0.08:
+        return gen_config_case(rng)
     while True:
         base = C06.gen_case(rng)
         if base["cls"] in ("acls", "addrgroups"):
